@@ -156,6 +156,20 @@ def r4_widen(text, where, log):
     return _R4_VIS.sub('pub', text)
 
 
+def sibling(name):
+    """import units/<name>/unit.py (so that one unit can reuse the contracts another proves)"""
+    import importlib.util
+    import sys
+    key = 'unit_' + name
+    if key in sys.modules:
+        return sys.modules[key]
+    spec = importlib.util.spec_from_file_location(key, os.path.join(VERIF, 'units', name, 'unit.py'))
+    mod = importlib.util.module_from_spec(spec)
+    sys.modules[key] = mod
+    spec.loader.exec_module(mod)
+    return mod
+
+
 class ItemSpec:
     def __init__(self, file, path, **kw):
         self.file = file
@@ -209,7 +223,7 @@ class Unit:
         it = ItemSpec(file, path, **kw)
         self.parts.append(('item', it))
         is_fn = '::fn ' in path or path.startswith('fn ') or 'lift' in kw
-        if is_fn and kw.get('expect', ('contract' in kw)):
+        if is_fn and not kw.get('stub') and kw.get('expect', ('contract' in kw)):
             self.expected.append(it.key)
         return it
 
@@ -295,6 +309,21 @@ class Unit:
         # splice points are computed on the rewritten text; all splices are insertions
         splices = []  # (offset, text)
         is_fn = spec.path.startswith('fn ') or '::fn ' in spec.path or 'lift' in kw
+        if kw.get('stub'):
+            # modular use of a callee: signature + contract only, body dropped.  The contract
+            # is the one proved in the unit named by kw['stub'] (same text object in Python).
+            try:
+                fp0 = rsitems.fn_parts(text)
+            except ScanError as e:
+                raise ExtractError('cannot parse fn %s: %s' % (where, e))
+            body = text[fp0['body_open']:fp0['body_close'] + 1]
+            text = (text[:fp0['body_open']] + '{ unimplemented!() }' + '\n' * body.count('\n')
+                    + text[fp0['body_close'] + 1:])
+            kfn = text.rfind('\n', 0, fp0['fn_kw']) + 1
+            text = text[:kfn] + '#[verifier::external_body] ' + text[kfn:]
+            meta['stub_of'] = kw['stub']
+            log.append(dict(rule='STUB', where=where,
+                            why='callee used through its contract only; the contract is discharged in unit `%s`' % kw['stub']))
         if lifted is not None:
             sig, tail, stmt = lifted
             c = kw.get('contract', '').strip('\n')
@@ -409,6 +438,38 @@ class Unit:
         from the start of the anchor to the end of that block (a whole statement such
         as `if let .. { .. }`), wrapped in braces.  Returns
         (body_text, first_line, (prefix_splice, suffix_splice))."""
+        if 'start_after' in lift or 'start_at' in lift:
+            # statement range: from just after `start_after` (or from `start_at`) up to and
+            # including the first occurrence of `end_at` after it
+            key = 'start_after' if 'start_after' in lift else 'start_at'
+            anchor = lift[key]
+            n = text.count(anchor)
+            if n != 1:
+                raise ExtractError('%s: lift anchor %r found %d times' % (where, anchor, n))
+            a = text.index(anchor) + (len(anchor) if key == 'start_after' else 0)
+            e = text.find(lift['end_at'], a)
+            if e < 0:
+                raise ExtractError('%s: lift end %r not found after start' % (where, lift['end_at']))
+            e += len(lift['end_at'])
+            body = text[a:e]
+            # the range must be balanced, or it is not a statement sequence
+            code = rsitems.lex_mask(body)
+            depth = 0
+            for k, ch in enumerate(body):
+                if code[k]:
+                    if ch in '([{':
+                        depth += 1
+                    elif ch in ')]}':
+                        depth -= 1
+                        if depth < 0:
+                            raise ExtractError('%s: lifted range is not balanced' % where)
+            if depth != 0:
+                raise ExtractError('%s: lifted range is not balanced' % where)
+            sig = ' '.join(lift['sig'].split())
+            log.append(dict(rule='R5', where=where, anchor=anchor,
+                            why=lift.get('why', 'statement range lifted into a function; path condition becomes an assumed precondition')))
+            first = line_start + text.count('\n', 0, a)
+            return body, first, (sig, lift.get('tail', ''), True)
         anchor = lift['anchor']
         n = text.count(anchor)
         if n != 1:
